@@ -260,8 +260,8 @@ def run(chk):
         d = it.global_name(mi, reg)
         for l in range(2, 8):
             fr = d.get(l)
-            ok = isinstance(fr, FuncRef) and fr.node is tables[(l, fname)][2]
-            chk.ob('R09.4', f'{reg}[{l}]', ok, f'points at {fr!r}', mi.where(mi.defs[reg]), method='resolved callee identity')
+            ok, why_ = same_table(repo, fr, tables[(l, fname)], I, d5)
+            chk.ob('R09.4', f'{reg}[{l}]', ok, why_, mi.where(mi.defs[reg]), method='resolved callee identity, or (a wrapper) interpretation of the call and entry-wise comparison')
         extra = [k for k in d if k not in range(2, 8)]
         chk.ob('R09.4', f'{reg} keys', not extra, f'extra keys {extra}', mi.where(mi.defs[reg]))
     top = it.global_name(mi, 'inclination_functions')
@@ -272,7 +272,54 @@ def run(chk):
         for l in range(2, 8):
             for nz, fname in ((True, 'calc_inclination'), (False, 'calc_inclination_off')):
                 fr = it.call(mi, g, [l, nz])
-                chk.ob('R09.4', f'get_inclination_func({l},{nz})', isinstance(fr, FuncRef) and fr.node is tables[(l, fname)][2], f'returns {fr!r}', mi.where(g), method='resolved callee identity')
+                ok, why_ = same_table(repo, fr, tables[(l, fname)], I, d5)
+                chk.ob('R09.4', f'get_inclination_func({l},{nz})', ok, why_, mi.where(g), method='resolved callee identity, or (a wrapper) interpretation of the call and entry-wise comparison')
+    # R09.6 what a table function returns depends on the obliquity it is given NOW: the exported functions called twice in one interpreter state with the same array object whose
+    # content was updated in place in between (the state array of a time loop), and with a fresh array; each result against the scalar table at the obliquity of that call.
+    from ..core.interp import ArrBox
+    I2 = X.atom('I_second', 'pos')
+    exported = [(f'inclination_functions_on[{l}]', it.global_name(mi, 'inclination_functions_on').get(l), l) for l in range(2, 8)]
+    exported += [(f'calc_inclin_l{l}', it.global_name(mi, f'calc_inclin_l{l}'), l) for l in range(2, 8) if f'calc_inclin_l{l}' in mi.defs or f'calc_inclin_l{l}' in mi.imports]
+    for lab, fr, l in exported:
+        if not isinstance(fr, FuncRef):
+            chk.ob('R09.6', f'{lab}: called twice', False, f'not a function of the repository: {fr!r}', mi.where(mi.tree.body[0]), key=f'R09.6|{lab}'); continue
+        tab_s = tables[(l, 'calc_inclination')][0]
+        for how in ('the same array updated in place', 'a fresh array'):
+            ith = Interp(repo); ith.array_mode = True
+            cell = ArrBox(I)
+
+            def two(fork, ith=ith, fr=fr, cell=cell, how=how):
+                ith.hooks['fork'] = fork
+                try:
+                    cell.v = I
+                    ith.__dict__.pop('_functools_memo', None)
+                    r1 = ith.apply(fr, [cell], {}, None, None)
+                    if how.startswith('the same'):
+                        cell.v = I2; a2 = cell
+                    else:
+                        a2 = ArrBox(I2)
+                    return r1, ith.apply(fr, [a2], {}, None, None)
+                finally:
+                    ith.hooks.pop('fork', None)
+            bad = []
+            try:
+                outcomes = PathExplorer(max_paths=32).run(two)
+            except AnalysisError as ex:
+                raise AnalysisError(f'{lab} called twice: {ex}')
+            for tr_, (r1, r2) in outcomes:
+                if any(PathExplorer.arm(c_, o_)[0] == 'equality' for (c_, _w, _t, o_) in tr_):
+                    continue              # an exact coincidence of the two obliquities (or an obliquity of exactly zero): covered by the scalar arms
+                for which, res, sub_ in (('first', r1, None), ('second', r2, {'I': I2})):
+                    if not isinstance(res, dict):
+                        bad.append(f'{which} call does not return a dictionary'); continue
+                    for key, ref_e in tab_s.items():
+                        v = res.get(key, X.ZERO); v = getattr(v, 'v', v)
+                        want = X.lift(ref_e) if sub_ is None else X.subst(X.lift(ref_e), sub_)
+                        if not d5.equal(X.lift(v), want):
+                            bad.append(f'{which} call, entry {key}: not the table at the obliquity of that call'); break
+            chk.ob('R09.6', f'{lab} called twice in one state, the second time with {how}: each call returns the table at the obliquity it was given', not bad, '; '.join(bad[:3]), mi.where(fr.node),
+                   key=f'R09.6|{lab}|{how}', method='two successive calls in one interpreter state, arrays as mutable cells + GF(p^2) PIT against the scalar table')
+    chk.floor('R09.6', 12)
     from .common import registry_writers
     registry_writers(chk, 'R09.4', repo, 'TidalPy/tides/inclination_funcs/__init__.py', ['inclination_functions_on', 'inclination_functions_off', 'inclination_functions'])
     registry_writers(chk, 'R09.4', repo, 'TidalPy/tides/modes/mode_calc_helper/__init__.py', ['inclination_functions_lookup'])
@@ -304,6 +351,35 @@ def run(chk):
             chk.ob('R09.4', inst, not why, why, fr.mod.where(fr.node), method='node identity')
     chk.floor('R09.4', 30)
     chk.trusted_base.append('vstatic/oracles/kaula.py (Kaula 1966 eq. 3.62; self-check against Table 1 each run)')
+
+
+def same_table(repo, fr, table, I, dq):
+    """the callable `fr` is the table function itself, or returns -- for a generic obliquity -- entry for entry what it returns"""
+    tab, m_, f_ = table
+    if isinstance(fr, FuncRef) and fr.node is f_:
+        return True, ''
+    if not isinstance(fr, FuncRef):
+        return False, f'points at {fr!r}'
+    from ..core.interp import PathExplorer
+    itw = Interp(repo)
+
+    def one(fork):
+        itw.hooks['fork'] = fork
+        try: return itw.apply(fr, [I], {}, None, None)
+        finally: itw.hooks.pop('fork', None)
+    try:
+        gen_ = [r_ for tr_, r_ in PathExplorer(max_paths=64).run(one) if not any(PathExplorer.arm(c_, o_)[0] == 'equality' for (c_, _w, _t, o_) in tr_)]
+    except AnalysisError as ex:
+        return False, f'points at {fr!r}, which cannot be interpreted: {ex}'
+    if len(gen_) != 1 or not isinstance(gen_[0], dict):
+        return False, f'points at {fr!r}: {len(gen_)} generic outcomes'
+    res = gen_[0]
+    if sorted(res, key=repr) != sorted(tab, key=repr):
+        return False, f'points at {fr!r}, whose keys differ from the table\'s'
+    for k_ in tab:
+        if res[k_] is not tab[k_] and not dq.equal(X.lift(getattr(res[k_], 'v', res[k_])), X.lift(tab[k_])):
+            return False, f'points at {fr!r}: entry {k_} differs from the table'
+    return True, ''
 
 
 def fmt_key(k):
